@@ -1548,6 +1548,14 @@ def unroll_literal_loops(stmts: list[ast.stmt]) -> list[ast.stmt]:
         if isinstance(s, ast.Try):
             for h in s.handlers:
                 h.body = unroll_literal_loops(h.body)
+        if isinstance(s, ast.For) and isinstance(s.iter, ast.Call) and isinstance(s.iter.func, ast.Attribute) and s.iter.func.attr in ("items", "keys", "values") \
+                and isinstance(s.iter.func.value, ast.Dict) and not s.iter.args and not s.iter.keywords and all(k is not None for k in s.iter.func.value.keys) \
+                and len({ast.unparse(k) for k in s.iter.func.value.keys}) == len(s.iter.func.value.keys):
+            # a dict display iterated on the spot: its rows in the order written
+            d_ = s.iter.func.value
+            rows = {"items": [ast.Tuple(elts=[k, v], ctx=ast.Load()) for k, v in zip(d_.keys, d_.values)], "keys": list(d_.keys), "values": list(d_.values)}[s.iter.func.attr]
+            s.iter = ast.copy_location(ast.Tuple(elts=rows, ctx=ast.Load()), s.iter)
+            ast.fix_missing_locations(s)
         if isinstance(s, ast.For) and isinstance(s.iter, (ast.Tuple, ast.List)) and 1 <= len(s.iter.elts) <= 6 and not s.orelse \
                 and not any(isinstance(e, ast.Starred) for e in s.iter.elts):
             def own(kinds):
@@ -1565,14 +1573,26 @@ def unroll_literal_loops(stmts: list[ast.stmt]) -> list[ast.stmt]:
             def simple(x):
                 return isinstance(x, (ast.Constant, ast.Lambda)) or _attr_chain(x) is not None
             tn = [n.id for n in ast.walk(s.target) if isinstance(n, ast.Name)]
-            direct = not (set(tn) & _assigned_names(s.body)) and all(
-                simple(e) if isinstance(s.target, ast.Name) else (isinstance(e, ast.Tuple) and isinstance(s.target, ast.Tuple) and len(e.elts) == len(s.target.elts)
-                                                                  and all(isinstance(t, ast.Name) for t in s.target.elts) and all(simple(x) for x in e.elts))
-                for e in s.iter.elts)
+
+            def destructure(t, e):
+                """{name: simple entry} for a (nested) tuple target against a (nested) tuple row, None if the shapes differ"""
+                if isinstance(t, ast.Name):
+                    return {t.id: e} if simple(e) else None
+                if isinstance(t, (ast.Tuple, ast.List)) and isinstance(e, (ast.Tuple, ast.List)) and len(t.elts) == len(e.elts) \
+                        and not any(isinstance(x, ast.Starred) for x in list(t.elts) + list(e.elts)):
+                    mp_ = {}
+                    for t2, e2 in zip(t.elts, e.elts):
+                        r_ = destructure(t2, e2)
+                        if r_ is None:
+                            return None
+                        mp_.update(r_)
+                    return mp_
+                return None
+            rows_ = [destructure(s.target, e) for e in s.iter.elts]
+            direct = not (set(tn) & _assigned_names(s.body)) and all(r_ is not None for r_ in rows_)
             if not own((ast.Break, ast.Continue)) and direct:
                 # the entries are names / constants / lambdas: each case is the body with the entry written in
-                for e in s.iter.elts:
-                    mp = {s.target.id: e} if isinstance(s.target, ast.Name) else {t.id: x for t, x in zip(s.target.elts, e.elts)}
+                for mp in rows_:
                     out += [_Subst(dict(mp)).visit(copy.deepcopy(b_)) for b_ in s.body]
                 continue
             if not own((ast.Break, ast.Continue)):
